@@ -42,6 +42,9 @@ func lockAnalysisCommon(c *Ctx) {
 func runC13(c *Ctx) {
 	l := c.L()
 	lockAnalysisCommon(c)
+	// the analysis identifies a mutex with the field of its struct type: that is sound only if no such struct is ever copied
+	// (a copy made while the original is locked is a locked mutex that nobody will unlock — the next Lock on it never returns)
+	ruleNoLockCopy(c, "NOCOPY")
 	c.Floor("ORDER", "mutex classes", len(l.Classes), 10)
 	c.Floor("ORDER", "lock-order edges", len(l.Order), 8)
 
